@@ -330,7 +330,7 @@ func errorBound(c *core.Ctx, docs []*calcproto.Doc, res []Result) {
 			continue
 		}
 		cf := strings.Fields(cout[k])
-		if len(cf) != 3 || cf[0] != "ok" {
+		if len(cf) != 4 || cf[0] != "ok" {
 			c.TieBroken("drive:C01/class", "unexpected answer "+cout[k], Case{d})
 			continue
 		}
@@ -359,6 +359,7 @@ func errorBound(c *core.Ctx, docs []*calcproto.Doc, res []Result) {
 			c.Count("error-bound:documents", 1)
 		}
 		var proved *big.Rat
+		provedBy := ""
 		if inClass {
 			c.Count("error-bound:in-proved-class", 1)
 			if weight < 100 {
@@ -371,6 +372,19 @@ func errorBound(c *core.Ctx, docs []*calcproto.Doc, res []Result) {
 				}
 			}
 			proved = new(big.Rat).Mul(unit, new(big.Rat).Add(big.NewRat(1, 2), big.NewRat(weight, 200)))
+			// the tight weight (actual percentages, Props.C01.decided_class_bound_tight): a
+			// rational; when given, the real output is held to this smaller bound
+			if tw, ok := new(big.Rat).SetString(cf[3]); ok && cf[3] != "-" {
+				c.Count("error-bound:in-proved-class-tight", 1)
+				if tw.Cmp(big.NewRat(100, 1)) < 0 {
+					c.Count("error-bound:in-proved-class-tight-weight<100", 1)
+				}
+				tight := new(big.Rat).Mul(unit, new(big.Rat).Add(big.NewRat(1, 2), new(big.Rat).Quo(tw, big.NewRat(200, 1))))
+				if tight.Cmp(proved) < 0 {
+					proved = tight
+					provedBy = "theorem:C01/decided_class_bound_tight"
+				}
+			}
 		}
 		worst := new(big.Rat)
 		for j, a := range got {
@@ -391,6 +405,9 @@ func errorBound(c *core.Ctx, docs []*calcproto.Doc, res []Result) {
 				thm := "theorem:C01/decided_class_bound"
 				if included {
 					thm = "theorem:C01/decided_class_bound_included"
+				}
+				if provedBy != "" {
+					thm = provedBy
 				}
 				c.TieBroken(thm, fmt.Sprintf("totals.%s = %s is further from the unrounded exact value %s than the bound proved for the document class (weight %d)", names[j], a.String(), want.FloatString(int(sub)+6), weight), Case{d})
 			}
